@@ -3,6 +3,7 @@
   canonical result line per operation (same format as harness/src/exec.rs).
 -/
 import SnowVerif.Model.Builder
+import SnowVerif.Model.BuilderApi
 import SnowVerif.Model.Resolvers
 import SnowVerif.Crypto.Real
 import SnowVerif.Spec.Validity
@@ -457,6 +458,38 @@ def step (st : St) (line : String) : St × String :=
     (match parseRExpr 8 (arg 1) with
      | some e => (st, resolveLine e (arg 2) (arg 3))
      | none => (st, "badexpr"))
+  | "setters" =>
+    let spec := arg 1
+    let items : List Setter :=
+      if spec == "-" || spec == "" then [] else
+      (spec.splitOn ",").filterMap fun it =>
+        let f := it.splitOn ":"
+        let unh (h : String) : Bytes := if h == "-" then [] else unhex h
+        match f with
+        | ["psk", loc, key] => some (.psk (loc.toNat?.getD 255) (Bytes.fit 32 (unh key)))
+        | ["s", k] => some (.localPrivateKey (unh k))
+        | ["e", k] => some (.fixedEphemeral (unh k))
+        | ["pro", k] => some (.prologue (unh k))
+        | ["rs", k] => some (.remotePublicKey (unh k))
+        | _ => none
+    (match BuilderSt.new.configure items with
+     | .ok _ => (st, "ok")
+     | .err e => (st, s!"err {e.toStr}")
+     | .panic _ => (st, "panic"))
+  | "genkey" =>
+    let name := unhex (arg 2)
+    (match parse st.feats name with
+     | .err e => (st, s!"err {e.toStr}")
+     | .panic _ => (st, "panic")
+     | .ok p =>
+       match parseRExpr 8 (arg 1) with
+       | none => (st, "badexpr")
+       | some e =>
+         let (S, av) := suiteFor e p
+         match generateKeypair S av (unhex (kv parts "rng")) with
+         | .ok (sk, pk) => (st, s!"ok priv={hex sk} pub={hex pk}")
+         | .err x => (st, s!"err {x.toStr}")
+         | .panic _ => (st, "panic"))
   | "prim" => (st, primLine parts)
   | "specvec" => (st, specVec parts)
   | _ => (st, "badop")
